@@ -1484,7 +1484,9 @@ TASKS = (
 )
 
 META = {
-    "level": "proof",
+    # proof of mechanism: per-construct obligations are discharged symbolically, but deciding steps include bounded child-list lengths and
+    # bounded stand-ins (stated in `assumptions` / bound texts), so the property as a whole is not claimed at level "proof"
+    "level": "other",
     "explanation": "Relational emission contract: for every code generator visitor the schemas of the real visitor in async and sync mode are paired over all other "
                    "flags and shown equal up to erase (await / auto_await / auto_aiter / async / AsyncLoopContext / _async / aclose) and the generator-delegation "
                    "rewrite to `yield from`; async filter variants through the contracts of contracts.c22 (both sides satisfy the same contract; delegating twins are "
